@@ -562,6 +562,7 @@ func (w *world) open(id int, filler bool) {
 	}
 	w.all = append(w.all, c)
 	// which half must serve it?
+	inA := w.wantOnlineA()
 	switch w.c.Cfg.Mode {
 	case "blocking":
 		c.half = "A"
@@ -569,7 +570,7 @@ func (w *world) open(id int, filler bool) {
 		c.half = "B"
 	default:
 		c.half = "B"
-		if w.wantOnlineA() == 0 {
+		if inA == 0 {
 			c.half = "A"
 		}
 	}
@@ -589,7 +590,7 @@ func (w *world) open(id int, filler bool) {
 	if got != c.half {
 		w.obs("c10", "mixed-dispatch-wrong-half want="+c.half+" got="+got,
 			"connection c%d was accepted while %d connection(s) were online in the blocking half (MaxBlockingOnline 1): it must be served by half %s, it is served by half %s (A: goroutine per connection, B: poller)",
-			id, w.wantOnlineA(), c.half, got)
+			id, inA, c.half, got)
 		c.half = got
 	}
 	w.res.count("opens_half_"+c.half, 1)
